@@ -2,13 +2,16 @@
 //@include units/time.rs
 //@include units/speclib_arith.rs
 //@include units/vf_helpers.rs
+//@include units/vf_stream.rs
 //@include units/supply_trait.rs
 //@include units/fixed_point.rs
 //@include units/supply_impls.rs
 //@include units/arrival_basic.rs
 //@include units/wcet.rs
 //@include units/demand.rs
-//@include units/modules.rs
 //@include units/speclib_fp.rs
+//@include units/arrival_steps.rs
+//@include units/demand_steps.rs
+//@include units/modules_steps.rs
 //@include units/fp_np.rs
 fn main() {}
